@@ -34,6 +34,7 @@ class Budget(BaseException):
 
 CTX = None
 sys.set_int_max_str_digits(0)
+SNAP_DB = Fraction(1, 10 ** 12)
 
 
 def cur():
@@ -121,6 +122,15 @@ class Ctx:
 
     def real(self, name, lo=None, hi=None, lo_strict=False, hi_strict=False):
         if self.mode == 'conc':
+            if name not in self.values:
+                # input created after the obligation whose model is replayed: any value inside the bounds
+                if lo is not None and hi is not None:
+                    return (float(lo) + float(hi)) / 2
+                if lo is not None:
+                    return float(lo) + (1.0 if float(lo) == 0 or lo_strict else 0.0) * max(1.0, abs(float(lo)))
+                if hi is not None:
+                    return float(hi) - 1.0
+                return 1.0
             return float(self.values[name])
         v = z3.Real(name)
         self._register(name, v)
@@ -142,7 +152,7 @@ class Ctx:
     def int(self, name, lo, hi):
         """symbolic integer in [lo, hi]"""
         if self.mode == 'conc':
-            return int(self.values[name])
+            return int(self.values.get(name, lo))
         v = z3.Int(name)
         self._register(name, v)
         self.solver.add(v >= lo, v <= hi)
@@ -152,9 +162,9 @@ class Ctx:
         """concrete value-fork over a list of python values (shape parameters)"""
         options = list(options)
         if self.mode == 'conc':
-            val = options[self.choices_in[name]]
-            self.choices[name] = self.choices_in[name]
-            return val
+            i = self.choices_in.get(name, 0)
+            self.choices[name] = i
+            return options[i]
         i = self._decide(list(range(len(options))), 'choice')
         self.choices[name] = i
         return options[i]
@@ -519,6 +529,10 @@ class SR:
         k = k1 + sign * k2
         if not atoms:
             return SR(c=k)
+        if k != 0 and abs(k) < SNAP_DB and (k1 != 0 or k2 != 0) and abs(k1) > SNAP_DB:
+            # difference of two float-evaluated dB constants that denote the same value (e.g. 26 - 10*log10(10**2.6)):
+            # snapped to 0 (relative effect < 2.4e-13 in linear units; stated in the evidence assumptions)
+            k = Fraction(0)
         return SR(ll=(atoms, k))
 
     def __add__(s, o):
@@ -1251,6 +1265,14 @@ def approx(a, b, rel=1e-9, abs_=0.0):
         d = a - b
         if d.c is not None and b.c is not None:
             return abs(d.c) <= Fraction(repr(rel)) * abs(b.c) + Fraction(repr(abs_))
+        if d.c is None:
+            try:
+                if CTX.rf(d.t).n.is_zero():
+                    return True
+            except TooBig:
+                pass
+        elif d.c == 0:
+            return True
         lim = abs(b) * rel + abs_
         return And(d <= lim, -d <= lim)
     return abs(a - b) <= 2 * rel * abs(b) + 2 * abs_ + 1e-300
